@@ -140,7 +140,24 @@ class Check:
         return True
 
     # ----------------------------------------------------------------- output
+    def _coverage_floors(self):
+        """Committed per-check minima of explored cases per kind (coverage_floors.json, written by
+        `python -m harness.mkfloors` from a clean run at half the observed counts). A run that silently lost
+        most of its coverage (every form crashes, a patched name disappeared, workers time out) no longer
+        shows that the property held on what it claims to explore: broken, no failing input."""
+        try:
+            floors = json.loads((VERIF / "coverage_floors.json").read_text()).get(self.prop, {}).get(self.tier, {})
+        except Exception:
+            return
+        low = {k: (self.hist.get(k, 0), m) for k, m in floors.items() if self.hist.get(k, 0) < m}
+        if low:
+            self.broken.append({"kind": "coverage-floor",
+                                "what": "explored cases fell below the committed floor: " +
+                                        ", ".join(f"{k} {c} < {m}" for k, (c, m) in sorted(low.items())),
+                                "detail": {k: list(v) for k, v in low.items()}})
+
     def finish(self):
+        self._coverage_floors()
         wall = time.time() - self.t0
         nobl = len(self.obligations)
         ndis = sum(1 for o in self.obligations if o[2])
@@ -234,8 +251,20 @@ def main(argv=None):
         else:
             mod.run(chk)
         rc = chk.finish()
-    except Exception:
+    except Exception as ex:
         traceback.print_exc()
-        print(f"[{a.prop}] INFRASTRUCTURE ERROR (exit 2)")
-        return 2
+        infra = isinstance(ex, (OSError, MemoryError, TimeoutError)) or "build failed" in str(ex) or "lake" in str(ex).lower()
+        if infra:
+            print(f"[{a.prop}] INFRASTRUCTURE ERROR (exit 2)")
+            return 2
+        # the harness could not even be applied to this tree (a name it patches / reads disappeared, an exporter met a
+        # node it does not know …): the tie between model and code is broken -> VIOLATION … no-failing-input-found
+        chk.broken.append({"kind": "harness-exception", "what": f"{type(ex).__name__}: {str(ex)[:300]}",
+                           "trace": traceback.format_exc()[-2500:]})
+        try:
+            return chk.finish()
+        except Exception:
+            traceback.print_exc()
+            print(f"[{a.prop}] INFRASTRUCTURE ERROR (exit 2)")
+            return 2
     return rc
